@@ -1,6 +1,8 @@
 """C05 — every compute/persist/optimize entry point agrees."""
 from __future__ import annotations
 
+import random
+
 import re
 import warnings
 
@@ -122,8 +124,279 @@ def run(chk: Check):
                 "dask.optimize, x.optimize, to_delayed) + a follow-on operation on every returned collection; values compared exactly "
                 "with x.compute(); persisted / dask-optimized collections must keep name, chunks, dtype; non-trivial = more than one node")
     chk.run_proofs()
+    model_family(chk, da)
     # corpus: F7a
     run_program(chk, da, ("reduce", "sum", ("src", 0), None, False, None), [(np.arange(10, dtype="int64"), ((5, 5),))], None)
     n = 3000 if chk.tier == "thorough" else 150
     for prog, sources, want in progs.gen_programs(chk.rng, n, ops=progs.CORE_OPS, depth_choices=(1, 2, 3, 4)):
         run_program(chk, da, prog, sources, want)
+
+
+# ==========================================================================
+# Model correspondence (coq/theories/Protocol.v): FromGraph's key location and the RootAlias pin
+from itertools import product as _product  # noqa: E402
+
+from common import clist, coq_eval_cases, copt, ctuple, cz  # noqa: E402
+
+M_HEADER = ("From DA Require Import PyBase Graph Protocol.\nOpen Scope Z_scope.\n"
+            "Definition kb (n : Z) (i : list Z) := KB (Z.to_pos n) i.\n"
+            "Definition ko (n : Z) := KO (Z.to_pos n).\n"
+            "Definition dv (n : Z) := Data (Z.to_pos n).\n"
+            "Definition tv (n : Z) := TaskV (Z.to_pos n).\n"
+            "Definition al (k : lkey) := AliasTo k.\n")
+FG_CASE = "list (lkey * lval) * list (Z * list Z) * Z * list nat * option (list (lkey * lval)) * Z"
+FG_CHK = ("Definition chk (c : " + FG_CASE + ") : bool :=\n"
+          "  let '(layer, keys, self, nb, out, err) := c in\n"
+          "  fres_eqb (fg_layer layer (map (fun k => (Z.to_pos (fst k), snd k)) keys) (Z.to_pos self) nb) out err.")
+RA_CASE = "Z * Z * list nat * list (lkey * lval) * list lkey"
+RA_CHK = ("Definition chk (c : " + RA_CASE + ") : bool :=\n"
+          "  let '(raw, opt, nb, lay, adv) := c in\n"
+          "  list_eqb (fun x y => lkey_eqb (fst x) (fst y) && lval_eqb (snd x) (snd y)) (root_alias_layer (Z.to_pos raw) (Z.to_pos opt) nb) lay\n"
+          "  && list_eqb lkey_eqb (dask_keys (Z.to_pos raw) nb) adv.")
+
+
+def _is_block_key(k):
+    return isinstance(k, tuple) and len(k) >= 1 and all(type(i) is int for i in k[1:])
+
+
+class Reifier:
+    """numbers names / other keys / values of one layer (1.., by first appearance)"""
+
+    def __init__(self):
+        self.names, self.others, self.vals = {}, {}, {}
+
+    def name(self, n):
+        return self.names.setdefault(n, len(self.names) + 1)
+
+    def key(self, k):
+        if _is_block_key(k):
+            return f"kb {self.name(k[0])} {clist(k[1:])}"
+        return f"ko {self.others.setdefault(k, len(self.others) + 1)}"
+
+    def value(self, v, is_task):
+        i = self.vals.setdefault(id(v), len(self.vals) + 1)
+        return f"{'tv' if is_task else 'dv'} {i}"
+
+
+def reify_from_graph(fg):
+    """(case literal, python-side description, resolved) for one real FromGraph node: its layer operand,
+    `keys`, name, block grid, and what `FromGraph._layer()` returns (or which error it raises)"""
+    from dask import istask
+    from dask._task_spec import Alias, GraphNode
+    layer = fg.operand("layer")
+    r = Reifier()
+    self_id = r.name(fg._name)
+    kinds = {}
+    lay_items = []
+    for k, v in dict(layer).items():
+        t = isinstance(v, GraphNode) or istask(v)
+        kinds[id(v)] = t
+        lay_items.append(ctuple(r.key(k), r.value(v, t)))
+    keys = [ctuple(cz(r.name(k[0])), clist(k[1:])) for k in fg.operand("keys")]
+    nb = [len(c) for c in fg.chunks]
+    err, out = 0, None
+    try:
+        out = fg._layer()
+    except ValueError as e:
+        err = 1 if "cannot find output block" in str(e) else 2 if "two output keys" in str(e) else 9
+    except KeyError:
+        err = 3
+    out_lit = None
+    if out is not None:
+        items = []
+        for k, v in out.items():
+            if id(v) in kinds:
+                items.append(ctuple(r.key(k), r.value(v, kinds[id(v)])))
+            elif isinstance(v, Alias) and v.key == k:
+                items.append(ctuple(r.key(k), f"al ({r.key(v.target)})"))
+            else:
+                items.append(ctuple(r.key(k), "dv 999999"))      # a value FromGraph invented: never matches
+        out_lit = "[" + "; ".join(items) + "]"
+    lit = ctuple("[" + "; ".join(lay_items) + "]", "[" + "; ".join(keys) + "]", cz(self_id),
+                 "[" + "; ".join(f"{n}%nat" for n in nb) + "]", "None" if out_lit is None else f"(Some {out_lit})", cz(err))
+    return lit, out, err
+
+
+def synth_layer(rng):
+    """a generated FromGraph over a synthetic layer: several names covering the grid fully / partly / with extras,
+    data and task values, expected keys, foreign keys"""
+    from dask._task_spec import Task
+    ndim = rng.choice([0, 1, 1, 2, 2])
+    nb = tuple(rng.choice([1, 2, 2, 3] + ([0] if rng.random() < 0.1 else [])) for _ in range(ndim))
+    grid = list(_product(*(range(n) for n in nb)))
+    pool = ["self", "a", "b", "c"]
+    layer = []
+    tags = {}
+
+    def mk(name, idx):
+        tag = f"{name}|{idx}"
+        r = rng.random()
+        if r < 0.5:
+            v = "data:" + tag                       # plain data (a persisted block / a future)
+        elif r < 0.8:
+            v = Task((name, *idx), str, tag)          # GraphNode
+        else:
+            v = (str, tag)                          # legacy task tuple
+        tags[id(v)] = (name, tuple(idx))
+        return v
+    for name in pool:
+        mode = rng.choice(["full", "full", "partial", "none", "extra", "none"] if name != "self" else ["full", "partial", "none", "none", "none"])
+        if mode == "none":
+            continue
+        idxs = list(grid)
+        if mode == "partial" and idxs:
+            idxs = rng.sample(idxs, rng.randint(0, len(idxs) - 1)) if len(idxs) > 1 else []
+        if mode == "extra":
+            e = rng.choice(["off-grid", "negative", "short", "long"])
+            if e == "off-grid":
+                idxs.append(tuple(n for n in nb) if nb else (0,))
+            elif e == "negative" and nb:
+                idxs.append(tuple(-1 for _ in nb))
+            elif e == "short" and nb:
+                idxs.append(tuple(0 for _ in nb[1:]))
+            else:
+                idxs.append(tuple(0 for _ in nb) + (0,))
+        for idx in dict.fromkeys(idxs):
+            layer.append(((name, *idx), mk(name, idx)))
+    if rng.random() < 0.4:
+        layer.append(("loose-string-key", mk("loose", ())))
+    if rng.random() < 0.3:
+        layer.append((("a", "x"), mk("tuple-nonint", ())))
+    rng.shuffle(layer)
+    keys = []
+    kmode = rng.choice(["none", "none", "some", "all", "dup-same", "dup-conflict"])
+    if kmode != "none" and grid:
+        kn = rng.choice(["a", "b", "zz"])
+        chosen = grid if kmode != "some" else rng.sample(grid, rng.randint(1, len(grid)))
+        keys = [(rng.choice([kn, kn, "c"]), *b) for b in chosen]
+        if kmode == "dup-same":
+            keys.append(keys[0])
+        if kmode == "dup-conflict":
+            keys.insert(rng.randint(0, len(keys)), ("other-" + str(keys[0][0]), *keys[0][1:]))
+        if rng.random() < 0.2:
+            keys.append(("a", *(n + 5 for n in nb)))
+    return dict(layer), keys, nb, grid, tags, kmode
+
+
+def model_family(chk, da):
+    import dask
+    from dask._task_spec import Alias
+    from dask_array._expr import RootAlias
+    from dask_array import _materialize as _materialize_mod
+    from dask_array._materialize import _materialize
+    from dask_array.io._from_graph import FromGraph
+    rng = random.Random(f"{chk.pid}-model-family-{chk.seed}")     # own stream: the checks above keep theirs
+    fg_cases, fg_desc, ra_cases, ra_desc = [], [], [], []
+
+    def add_fg(fg, desc, tags=None, grid=None):
+        lit, out, err = reify_from_graph(fg)
+        fg_cases.append(lit)
+        fg_desc.append(desc)
+        chk.count("fromgraph:" + ("ok" if err == 0 else {1: "not-found", 2: "dup-keys", 3: "KeyError"}.get(err, "other-error")))
+        if out is not None and grid:
+            lay, b = fg.operand("layer"), tuple(grid[-1])
+            exp = fg._keys_by_block_id.get(b)
+            chk.count("fromgraph-rule:" + ("expected-key" if exp is not None and exp in lay else "own-key" if (fg._name, *b) in lay else "inferred-name"))
+        if err in (3, 9):
+            chk.violation("FromGraph._layer raises an undocumented error", desc, signature={"class": "fromgraph-error", "err": err})
+        if out is not None and tags is not None:
+            # the property itself, independently: every output key (name, b) resolves to a node that held block b
+            for b in grid:
+                v = out.get((fg._name, *b))
+                if isinstance(v, Alias):
+                    v = out.get(v.target)
+                src = tags.get(id(v))
+                if src is None or src[1] != tuple(b):
+                    chk.violation(f"FromGraph maps output block {b} to {src}", desc, signature={"class": "fromgraph-wrong-block"})
+                    break
+            else:
+                chk.traces_validated += 1
+
+    # (a) synthetic layers through the real FromGraph class
+    n = 20000 if chk.tier == "thorough" else 1500
+    meta = np.empty((0,), dtype="int64")
+    for _ in range(n):
+        layer, keys, nb, grid, tags, kmode = synth_layer(rng)
+        fg = FromGraph(layer=layer, _meta=meta, chunks=tuple((1,) * k for k in nb), keys=keys, name="self")
+        chk.count("fromgraph-keys:" + kmode)
+        chk.case(("fg", repr(sorted(map(repr, layer))), repr(keys), nb), nontrivial=len(grid) > 1)
+        add_fg(fg, {"layer_keys": [repr(k) for k in layer], "keys": [repr(k) for k in keys], "numblocks": nb}, tags, grid)
+
+    # (b) real persisted / optimized collections and the RootAlias pin of real materializations
+    m = 400 if chk.tier == "thorough" else 40
+    other = da.arange(5, chunks=2) * 2
+    # corpus: finding C05-A (optimization re-chunks flip(diff(.)); dask.persist keeps the optimized blocks under x's chunks)
+    corpus = [(("flip", ("diff", ("src", 0), 0), 0), [(np.arange(8, dtype="int64") ** 2, ((3, 1, 2, 2),))], None)]
+    for prog, sources, _want in corpus + list(progs.gen_programs(rng, m, ops=progs.CORE_OPS, depth_choices=(1, 2, 3))):
+        try:
+            with warnings.catch_warnings():
+                warnings.simplefilter("ignore")
+                # every entry point on a collection nobody has materialized before (what it does then depends on the
+                # state of the shared lowering cache: see C09)
+                _materialize_mod._LOWER_CACHE.clear()
+                made = {"dask.persist": dask.persist(progs.build(prog, da, sources, memo={}), other, scheduler="sync")[0]}
+                _materialize_mod._LOWER_CACHE.clear()
+                x = progs.build(prog, da, sources, memo={})
+                made["persist"] = x.persist(scheduler="sync")
+                try:
+                    made["dask.optimize"] = dask.optimize(progs.build(prog, da, sources, memo={}))[0]
+                except Exception:  # noqa: BLE001  (F7)
+                    pass
+                mat = _materialize(x.expr)
+        except Exception:  # noqa: BLE001
+            chk.count("model-family:skipped")
+            continue
+        for how, y in made.items():
+            if isinstance(y.expr, FromGraph):
+                chk.count("fromgraph-real:" + how)
+                chk.case(("fg-real", how, progs.show(prog)), nontrivial=True)
+                add_fg(y.expr, {"entry": how, "program": progs.show(prog)}, None, list(_product(*(range(len(c)) for c in y.expr.chunks))))
+                # the rebuilt collection advertises x's chunks: every persisted block must have that shape
+                if how != "dask.optimize" and not any(isinstance(c, float) for dim in y.chunks for c in dim):
+                    lay = y.expr._layer()
+                    bad = []
+                    for b in _product(*(range(len(c)) for c in y.chunks)):
+                        v = lay.get((y.name, *b))
+                        if isinstance(v, np.ndarray) and v.shape != tuple(c[i] for c, i in zip(y.chunks, b)):
+                            bad.append((b, v.shape))
+                    if bad:
+                        chk.violation(f"{how} returns a collection advertising x's chunks {y.chunks} whose persisted blocks have other shapes, e.g. block {bad[0][0]} has shape {bad[0][1]}",
+                                      {"entry": how, "program": progs.show(prog), **progs.describe(prog, sources)},
+                                      signature={"class": "persisted-block-shape", "entry": how})
+                    else:
+                        chk.traces_validated += 1
+        chk.count("materialize:" + type(mat).__name__ if isinstance(mat, RootAlias) else "materialize:root-name-kept")
+        if isinstance(mat, RootAlias):
+            r = Reifier()
+            raw, opt = r.name(mat._name), r.name(mat.array._name)
+            lay = []
+            ok = mat._name == x.name
+            for k, v in mat._layer().items():
+                ok = ok and isinstance(v, Alias) and v.key == k
+                lay.append(ctuple(r.key(k), f"al ({r.key(v.target)})"))
+            adv = [r.key(k) for k in progs_flat(x.__dask_keys__())]
+            if not ok:
+                chk.violation("RootAlias layer is not a layer of aliases under the collection's name", {"program": progs.show(prog)},
+                              signature={"class": "rootalias-shape"})
+            ra_cases.append(ctuple(cz(raw), cz(opt), "[" + "; ".join(f"{n}%nat" for n in mat.array.numblocks) + "]",
+                                   "[" + "; ".join(lay) + "]", "[" + "; ".join(adv) + "]"))
+            ra_desc.append({"program": progs.show(prog)})
+            chk.case(("rootalias", progs.show(prog)), nontrivial=True)
+    for i in coq_eval_cases(M_HEADER, FG_CASE, FG_CHK, fg_cases)[0]:
+        chk.tie_break("from_graph-model", {"case": fg_desc[i], "literal": fg_cases[i][:600]})
+    for i in coq_eval_cases(M_HEADER, RA_CASE, RA_CHK, ra_cases)[0]:
+        chk.tie_break("root_alias-model", {"case": ra_desc[i], "literal": ra_cases[i][:600]})
+    chk.traces_validated += len(fg_cases) + len(ra_cases)
+
+
+def progs_flat(keys):
+    out = []
+
+    def rec(x):
+        if isinstance(x, list):
+            for y in x:
+                rec(y)
+        else:
+            out.append(x)
+    rec(keys)
+    return out
